@@ -1201,7 +1201,7 @@ def run_C10_all(ctx):
             stats['c10:long-joined-path'] = stats.get('c10:long-joined-path', 0) + 1
     correspondence(ctx, [longpaths], proj_full, None, 'C10 default include function', 'long-paths')
 
-REGISTRY['C10'] = dict(modules=['LibconfigModel.Properties.C10', 'LibconfigModel.Properties.C10Splice', 'LibconfigModel.Properties.C10SpliceTotal', 'LibconfigModel.Properties.Skeleton', 'LibconfigModel.Properties.C10Prov'], run=run_C10_all, assumptions=COMMON_ASSUMPTIONS)
+REGISTRY['C10'] = dict(modules=['LibconfigModel.Properties.CFlow', 'LibconfigModel.Properties.C10', 'LibconfigModel.Properties.C10Splice', 'LibconfigModel.Properties.C10SpliceTotal', 'LibconfigModel.Properties.Skeleton', 'LibconfigModel.Properties.C10Prov'], run=run_C10_all, assumptions=COMMON_ASSUMPTIONS)
 def run_C11_all(ctx):
     props_c1011.run_C11(ctx)
     c11_ioerr_and_reread(ctx, 'C11 release of files and buffers')
